@@ -30,6 +30,8 @@ import Chrono.Proofs.Rfc3339SignL
 import Chrono.Proofs.Rfc3339UniqueL
 import Chrono.Proofs.Rfc3339SlicesL
 import Chrono.Proofs.Rfc3339DataL
+import Chrono.Proofs.Rfc3339OffsetDataL
+import Chrono.Proofs.Rfc3339ZuluL
 import Chrono.Proofs.Rfc3339ExtraL
 import Chrono.Proofs.Rfc3339RelaxedL
 import Chrono.Extracted.Rfc3339
@@ -83,6 +85,81 @@ example :
         ⟨dateOfYo 2015 20, ⟨63320, 120001000⟩⟩ 0 .autoSi true ≠
       Format.write_rfc3339 ⟨dateOfYo 2015 20, ⟨63320, 120001000⟩⟩ 0 .autoSi true := by
   decide +kernel
+
+/-- **offset_code_data_ok** (audit 2, M1).  Every integer, byte and char literal INSIDE
+`scan::timezone_offset` (with its inner `digits`), `OffsetFormat::format`, `write_hundreds` and `scan::number`,
+in source order, as re-extracted on this run (tools/extractors/rfc3339_offset.py), is the one the model was
+written against: `Z`/`z`, `&s[1..]`, `0`; `b.len() < 2`, `b[0]`, `b[1]`; the two hour-digit classes `48..57`;
+`(h1 - 48) * 10 + (h2 - 48)`; `&s[2..]`; the minute classes `48..53` × `48..57` (value) and `54..57` × `48..57`
+(`OUT_OF_RANGE`); `0` for missing minutes; `len >= 2`, `&s[2..]`, `0 => s`; `hours * 3600 + minutes * 60`;
+the sign characters `+`, `-`, U+2212 each as pattern and as `len_utf8` receiver.  Writer: `off == 0`, `off < 0`,
+`mins = 0`, `secs = 0`, `/ 3600`, `(off + 30) / 60`, `% 60`, `/ 60`, …, `hours < 10`, `b'0' + hours`; `Z - + ␠ 0 : :`;
+`n >= 100`, `b'0' + n / 10`, `b'0' + n % 10`; `0i64`, `checked_mul(10)`, `c - b'0'`. -/
+theorem offset_code_data_ok :
+    Extracted.RFC3339_TZ_LITS =
+      [90, 122, 1, 0, 2, 0, 1, 48, 57, 48, 57, 48, 10, 48, 2, 48, 53, 48, 57, 48, 10, 48, 54, 57, 48, 57, 0, 2, 2, 0,
+       3600, 60] ∧
+    Extracted.RFC3339_TZ_CHARS = [[43], [43], [45], [45], [226, 136, 146], [226, 136, 146]] ∧
+    Extracted.RFC3339_OFFFMT_LITS = [0, 0, 0, 0, 3600, 30, 60, 60, 60, 0, 60, 60, 60, 60, 0, 0, 10, 48] ∧
+    Extracted.RFC3339_OFFFMT_CHARS = [90, 45, 43, 32, 48, 58, 58] ∧
+    Extracted.RFC3339_HUNDREDS_LITS = [100, 48, 10, 48, 10] ∧
+    Extracted.RFC3339_NUMBER_LITS = [0, 10, 48] := by
+  decide
+
+/-- **offset_code_data_tied** (audit 2, M1, data-extraction variant).  The sign / boundary logic of the offset
+is tied to the source by data, not only at the call sites: the body of the model of `scan::timezone_offset`
+with every literal replaced by a cell of the re-extracted lists (zulu bytes and slice index, the sign
+characters as UTF-8 prefixes with their `len_utf8`, both hour-digit classes, the minute classes `0..=5` /
+`6..=9`, the decimal weights, the three `&s[2..]` / `len >= 2` / `0`, the multipliers 3600 and 60) IS
+`Scan.timezone_offset` — for every colon consumer and flag combination, not only the RFC 3339 call; the body
+of the model of `OffsetFormat::format` with its 18 integer / byte literals and 7 char literals replaced IS
+`Format.OffsetFormat.format` (every precision, colon mode and padding); likewise `write_hundreds` (5 cells)
+and `scan::number` (3 cells).  The lists have exactly that many cells.  Not parametrised (structure of the
+model, covered by `offset_code_data_ok` only): the `2`, `0`, `1` of the inner `digits`.  This is a tie of
+DATA: that the control flow around the literals is the Rust one is the pins' and the differential run's job
+(a code translation of these functions is the subject of tools/extractors/rust2lean.py, not of this theorem). -/
+theorem offset_code_data_tied :
+    (Extracted.RFC3339_TZ_LITS.length = 32 ∧ Extracted.RFC3339_TZ_CHARS.length = 6 ∧
+     Proofs.Rfc3339OffsetData.timezone_offset_with Extracted.RFC3339_TZ_LITS Extracted.RFC3339_TZ_CHARS =
+       Scan.timezone_offset) ∧
+    (Extracted.RFC3339_OFFFMT_LITS.length = 18 ∧ Extracted.RFC3339_OFFFMT_CHARS.length = 7 ∧
+     Proofs.Rfc3339OffsetData.offset_format_with Extracted.RFC3339_OFFFMT_LITS Extracted.RFC3339_OFFFMT_CHARS
+       Extracted.RFC3339_HUNDREDS_LITS = Format.OffsetFormat.format) ∧
+    (Extracted.RFC3339_HUNDREDS_LITS.length = 5 ∧
+     Proofs.Rfc3339OffsetData.write_hundreds_with Extracted.RFC3339_HUNDREDS_LITS = Format.write_hundreds) ∧
+    (Extracted.RFC3339_NUMBER_LITS.length = 3 ∧
+     Proofs.Rfc3339OffsetData.number_with Extracted.RFC3339_NUMBER_LITS = Scan.number) :=
+  ⟨Proofs.Rfc3339OffsetData.timezone_offset_uses_extracted, Proofs.Rfc3339OffsetData.offset_format_uses_extracted,
+   Proofs.Rfc3339OffsetData.write_hundreds_uses_extracted, Proofs.Rfc3339OffsetData.number_uses_extracted⟩
+
+/-- non-vacuity of `offset_code_data_tied`: the parametrised bodies depend on the data.  With the minute
+class read as `b'0'..=b'6'` (cell 16: 53 → 54) the reader body accepts `+08:60`; with U+2212's bytes changed
+it no longer takes `−08:00`; with the rounding constant `30` read as `0` the writer body prints `+05:30` for
+an offset of 05:30:45 where the model (and the code) print `+05:31`; with `n >= 100` read as `n >= 60`
+`write_hundreds` refuses 75; with the base `10` read as `16` the number scanner reads `12` as 18. -/
+example :
+    Proofs.Rfc3339OffsetData.timezone_offset_with
+        [90, 122, 1, 0, 2, 0, 1, 48, 57, 48, 57, 48, 10, 48, 2, 48, 54, 48, 57, 48, 10, 48, 54, 57, 48, 57, 0, 2, 2, 0,
+         3600, 60] Extracted.RFC3339_TZ_CHARS [43, 48, 56, 58, 54, 48] .charColon true false true = .ok ([], 32400) ∧
+    Scan.timezone_offset [43, 48, 56, 58, 54, 48] .charColon true false true = .error .outOfRange ∧
+    Proofs.Rfc3339OffsetData.timezone_offset_with Extracted.RFC3339_TZ_LITS
+        [[43], [43], [45], [45], [226, 136, 147], [226, 136, 146]]
+        [226, 136, 146, 48, 56, 58, 48, 48] .charColon true false true = .error .invalid ∧
+    Scan.timezone_offset [226, 136, 146, 48, 56, 58, 48, 48] .charColon true false true = .ok ([], -28800) ∧
+    Proofs.Rfc3339OffsetData.offset_format_with [0, 0, 0, 0, 3600, 0, 60, 60, 60, 0, 60, 60, 60, 60, 0, 0, 10, 48]
+        Extracted.RFC3339_OFFFMT_CHARS Extracted.RFC3339_HUNDREDS_LITS ⟨.minutes, .colon, true, .zero⟩ 19845 =
+      Format.wok [43, 48, 53, 58, 51, 48] ∧
+    Format.OffsetFormat.format ⟨.minutes, .colon, true, .zero⟩ 19845 = Format.wok [43, 48, 53, 58, 51, 49] ∧
+    Proofs.Rfc3339OffsetData.write_hundreds_with [60, 48, 10, 48, 10] 75 = Format.werr ∧
+    Format.write_hundreds 75 = Format.wok [55, 53] := by
+  decide +kernel
+example :
+    Proofs.Rfc3339OffsetData.number_with [0, 16, 48] [49, 50] 2 (some 2) = .ok ([], 18) ∧
+    Scan.number [49, 50] 2 (some 2) = .ok ([], 12) := by
+  constructor
+  · simp [Proofs.Rfc3339OffsetData.number_with, Proofs.Rfc3339OffsetData.numberAux_with,
+      Proofs.Rfc3339OffsetData.numberAux_with.step, Scan.isDigit, I64_MAX]
+  · simp [Scan.number, Scan.numberAux, Scan.numberAux.step, Scan.isDigit, I64_MAX]
 
 /-! ### The strict reader accepts exactly the grammar with valid fields -/
 
@@ -258,6 +335,20 @@ src/datetime/mod.rs and separate bodies in Model/Rfc3339.lean (`to_rfc3339` bind
 literal `SecondsFormat::AutoSi, false`); this theorem says the bodies agree on every value. -/
 theorem to_rfc3339_is_opts (z : Zoned) : to_rfc3339 z = to_rfc3339_opts z .autoSi false := rfl
 
+/-- **secform_domain_declared** (audit 2, L2: a precondition that was undeclared).  "The five precision options"
+of the property are the five constructors of the model's `SecondsFormat`, and they are the first five variants
+of the Rust `enum SecondsFormat` as re-extracted on this run.  The Rust enum has a SIXTH, doc-hidden variant
+`__NonExhaustive` that a caller can name; `write_rfc3339` answers it with `unreachable!()`, i.e.
+`to_rfc3339_opts(SecondsFormat::__NonExhaustive, _)` PANICS (src/format/formatting.rs; confirmed on the real
+crate, counted by the harness as `render:__NonExhaustive:documented-panic`).  It is outside the property's
+quantifier and has no constructor in the model, so "rendering never panics" in `writer_in_grammar` and every
+other writer theorem is a statement about the five public options only.  A seventh variant, a renamed or a
+re-ordered one makes this theorem fail. -/
+theorem secform_domain_declared :
+    Extracted.RFC3339_SECFORM_VARIANTS = ["Secs", "Millis", "Micros", "Nanos", "AutoSi", "__NonExhaustive"] ∧
+    (∀ sf : Format.SecondsFormat, sf = .secs ∨ sf = .millis ∨ sf = .micros ∨ sf = .nanos ∨ sf = .autoSi) :=
+  ⟨by decide, fun sf => by cases sf <;> simp⟩
+
 /-- **writer_in_grammar.**  For every well-formed zone-aware value with a whole-minute offset whose wall
 clock lies in the years 0–9999, every one of the five `SecondsFormat` options and both `use_z`
 settings: rendering succeeds (no panic), and the text matches the RFC 3339 grammar with valid fields,
@@ -305,6 +396,21 @@ example :
     to_rfc3339 ⟨⟨dateOfYo 2015 20, ⟨63320, 0⟩⟩, 0⟩ = .ok [50, 48, 49, 53, 45, 48, 49, 45, 50, 48, 84, 49, 55, 58, 51, 53, 58, 50, 48, 43, 48, 48, 58, 48, 48] ∧
     to_rfc3339_opts ⟨⟨dateOfYo 2015 20, ⟨63320, 0⟩⟩, -1800⟩ .secs true = .ok [50, 48, 49, 53, 45, 48, 49, 45, 50, 48, 84, 49, 55, 58, 48, 53, 58, 50, 48, 45, 48, 48, 58, 51, 48] ∧
     offsetOf ⟨2015, 1, 20, 17, 35, 20, [], false, true, 0, 0⟩ = offsetOf ⟨2015, 1, 20, 17, 35, 20, [], false, false, 0, 0⟩ := by
+  decide +kernel
+
+/-- **writer_zulu_is_upper_case** (audit 2, L3).  When `Z` is requested and the offset is zero the text ends in
+the UPPER-CASE `Z` (byte 90), for every one of the five precisions.  `Matches` accepts `z` as well (the
+reader's latitude), so `writer_fields_exact`'s `f.zulu = true` alone left the case open. -/
+theorem writer_zulu_is_upper_case (z : Zoned) (hz : ZInv z) (hy : WallYear0to9999 (wallSecs z)) (h0 : z.off = 0)
+    (sf : Format.SecondsFormat) (t : List Nat) (h : to_rfc3339_opts z sf true = .ok t) :
+    t.getLast? = some 90 :=
+  Proofs.Rfc3339.writer_zulu_upper z hz hy h0 sf t h
+
+/-- non-vacuity: 2015-01-20T17:35:20Z with `Secs`, `use_z` renders `"2015-01-20T17:35:20Z"` (hypotheses of
+`writer_zulu_is_upper_case` met; the last byte is 90, not 122) -/
+example :
+    to_rfc3339_opts ⟨⟨dateOfYo 2015 20, ⟨63320, 0⟩⟩, 0⟩ .secs true =
+      .ok [50, 48, 49, 53, 45, 48, 49, 45, 50, 48, 84, 49, 55, 58, 51, 53, 58, 50, 48, 90] := by
   decide +kernel
 
 /-- **autoSi_shortest.**  What `wantedFrac .autoSi` (a branch-for-branch copy of the code's cascade) means:
